@@ -20,8 +20,12 @@
 //       (SASL 2 authorization-identifier, bind result, `to` of replies) has an approved bare JID;
 //   (4) QXmppServer::clientConnected(jid) after the victim's login only for a JID with an approved bare JID;
 //   (5) the victim's connection is not replaced or closed;
-//   (6) finishing a pending checker reply does not crash the server (probed in a forked child, so that a crash is an
-//       ordinary, shrinkable oracle failure and the search goes on behind it).
+//   (6) nothing the attacker sends and no checker reply, however late, crashes the server.  The server runs inside
+//       this process, so every case is executed in a forked child that reports through a record file; a child that
+//       dies (sanitizer report, failed assertion, signal) is an ordinary, shrinkable failure of that case with the
+//       signature "c16 server-crash <on-client-input|on-checker-reply> <kind>", and the search goes on behind it.
+// SASL 2 (urn:xmpp:sasl:2) IS implemented by the bundled server (QXmppIncomingClient::handleStanza), so it is part of
+// the alphabet.  Without a certificate the server offers no STARTTLS; none is configured here.
 #include "lb.h"
 #include "xmlutil.h"
 
@@ -178,12 +182,17 @@ struct Script {
     std::vector<Sched> sched;
     bool drain = true;
     std::vector<uint32_t> drainOrder;
+    // 0: the harness checker overrides checkPassword()/getDigest() and releases the replies on the generated schedule;
+    // 1: the checker only implements getPassword() ("the simplest way to write a password checker") and the library's own
+    //    QXmppPasswordChecker::checkPassword()/getDigest() produce the replies (src/server/QXmppPasswordChecker.cpp)
+    int backend = 0;
 };
 
 const char *MECHS[] = { "PLAIN", "DIGEST-MD5", "ANONYMOUS", "X-UNKNOWN", "", "SCRAM-SHA-1" };
 const char *PLAIN_CREDS[] = { "alice:right", "alice:wrong", "malformed-b64", "victim:wrong", "empty", "mallory", "authzid=victim,alice:right", "two-fields", "=" };
-const char *RESP_CREDS[] = { "digest(alice:right)", "digest(alice:wrong)", "digest(victim:wrong)", "digest(victim-name,alice-secret)", "empty", "garbage", "digest(mallory)", "plain(alice:right)", "plain(victim:wrong)" };
-const char *FROMS[] = { "-", "own-full", "own-bare", "victim-full", "victim-bare", "''", "stranger", "server-assigned" };
+const char *RESP_CREDS[] = { "digest(alice:right)", "digest(alice:wrong)", "digest(victim:wrong)", "digest(victim-name,alice-secret)", "empty", "garbage", "digest(mallory)", "plain(alice:right)", "plain(victim:wrong)",
+                              "digest(mallory:empty-password)", "digest(alice:empty-password)", "digest(victim:empty-password)" };
+const char *FROMS[] = { "-", "own-full", "own-bare", "victim-full", "victim-bare", "''", "stranger", "server-assigned", "own-other-resource" };
 const char *TOS[] = { "victim-bare", "victim-full", "server", "-", "alice-bare" };
 const char *TAGS[] = { "message", "presence", "presence-subscribe", "iq-get", "iq-set", "iq-result" };
 const char *RESOURCES[] = { "-", "''", "home", "x" };
@@ -255,7 +264,7 @@ Script generate(Tape &t)
             case K_BIND: e.res = int(t.weighted({ 1, 1, 3, 3 })); break;
             case K_STANZA:
                 e.tag = int(t.weighted({ 5, 2, 1, 2, 1, 1 }));
-                e.from = int(t.weighted({ 4, 2, 1, 3, 1, 1, 1, 1 }));
+                e.from = int(t.weighted({ 4, 2, 1, 3, 1, 1, 1, 1, 1 }));
                 e.to = int(t.weighted({ 3, 5, 1, 1, 1 }));
                 break;
             default: break;
@@ -276,6 +285,31 @@ Script generate(Tape &t)
     s.drain = !t.prob(1, 5);
     for (int i = 0; i < 8; i++)
         s.drainOrder.push_back(t.u(8));
+    // later additions draw at the end of the tape so that older replay files keep their meaning
+    s.backend = t.prob(1, 3) ? 1 : 0;
+    for (auto &st : s.steps)
+        for (auto &e : st.elems)
+            if ((e.k == K_RESP1 || e.k == K_RESP2) && (e.cred == 0 || e.cred == 1 || e.cred == 2 || e.cred == 6) && t.prob(1, e.cred == 0 ? 6 : 2))
+                e.cred = e.cred == 0 ? 9 + int(t.u(3)) : e.cred == 6 ? 9 : e.cred == 1 ? 10 : 11;   // a digest computed from the empty password
+    // a complete DIGEST-MD5 login attempt (auth, response to the challenge, final empty response) with right, wrong or
+    // empty-password credentials, placed right after the stream open: single elements rarely line up to one by chance
+    if (t.prob(1, 4)) {
+        static const int creds[] = { 0, 1, 2, 3, 6, 9, 10, 11 };
+        int cred = creds[t.u(8)];
+        bool v2 = t.prob(1, 3);
+        Elem a, r1, r2;
+        a.k = v2 ? K_AUTH2 : K_AUTH1;
+        a.mech = 1;
+        a.cred = 4;
+        a.bind2 = v2 ? int(t.u(3)) : 0;
+        r1.k = v2 ? K_RESP2 : K_RESP1;
+        r1.cred = cred;
+        r2.k = r1.k;
+        r2.cred = 4;
+        size_t pos = (!s.steps.empty() && !s.steps[0].elems.empty() && s.steps[0].elems[0].k == K_STREAM) ? 1 : 0;
+        std::vector<Step> ins = { Step { { a }, {} }, Step { { r1 }, {} }, Step { { r2 }, {} } };
+        s.steps.insert(s.steps.begin() + long(pos), ins.begin(), ins.end());
+    }
     return s;
 }
 
@@ -297,25 +331,12 @@ std::string scriptTextOf(const Script &script)
     for (auto &sc : script.sched)
         o += std::string(" ") + (sc.mode == 0 ? "manual" : sc.mode == 1 ? "auto+0" : sc.mode == 2 ? "auto+1" : "auto+3") + (sc.tempError ? "(temp-error)" : "");
     o += script.drain ? " ; drain at end" : " ; leave pending at end";
+    if (script.backend == 1)
+        o += "\n checker backend: getPassword() only, replies from the library's checkPassword()/getDigest() (schedule unused)";
     return o;
 }
 
 // ------------------------------------------------------------------ checker
-struct Request {
-    int id = 0;
-    bool digest = false;
-    QString user, pass;
-    QPointer<QXmppPasswordReply> reply;
-    bool tempError = false;
-};
-class Checker : public QXmppPasswordChecker
-{
-public:
-    std::function<QXmppPasswordReply *(bool, const QXmppPasswordRequest &)> hook;
-    QXmppPasswordReply *checkPassword(const QXmppPasswordRequest &r) override { return hook(false, r); }
-    QXmppPasswordReply *getDigest(const QXmppPasswordRequest &r) override { return hook(true, r); }
-    bool hasGetPassword() const override { return true; }
-};
 bool knownUser(const QString &u, QString &pw)
 {
     if (u == ALICE) {
@@ -328,6 +349,44 @@ bool knownUser(const QString &u, QString &pw)
     }
     return false;
 }
+struct Request {
+    int id = 0;
+    bool digest = false;
+    QString user, pass;
+    QPointer<QXmppPasswordReply> reply;
+    bool tempError = false;
+};
+class Checker : public QXmppPasswordChecker
+{
+public:
+    std::function<QXmppPasswordReply *(bool, const QXmppPasswordRequest &)> hook;
+    std::function<void(bool, const QXmppPasswordRequest &)> note;   // backend 1: tells the model what is being asked
+    bool useLibraryReplies = false;
+    QXmppPasswordReply *checkPassword(const QXmppPasswordRequest &r) override
+    {
+        if (!useLibraryReplies)
+            return hook(false, r);
+        note(false, r);
+        return QXmppPasswordChecker::checkPassword(r);
+    }
+    QXmppPasswordReply *getDigest(const QXmppPasswordRequest &r) override
+    {
+        if (!useLibraryReplies)
+            return hook(true, r);
+        note(true, r);
+        return QXmppPasswordChecker::getDigest(r);
+    }
+    // the documented minimal backend: the password of a known user, AuthorizationError (out-parameter untouched) otherwise
+    QXmppPasswordReply::Error getPassword(const QXmppPasswordRequest &r, QString &password) override
+    {
+        QString pw;
+        if (!knownUser(r.username(), pw))
+            return QXmppPasswordReply::AuthorizationError;
+        password = pw;
+        return QXmppPasswordReply::NoError;
+    }
+    bool hasGetPassword() const override { return true; }
+};
 
 // ------------------------------------------------------------------ case isolation
 // The server under test runs inside this process, and some generated conversations crash it (null dereference,
@@ -512,6 +571,25 @@ struct World {
         }
         return reply;
     }
+    // backend 1: the reply comes from the library at the next event-loop turn; the model learns the honest checker's
+    // answer when the question is asked (never later than the library can act on it, so never too strict)
+    void onLibraryRequest(bool digest, const QXmppPasswordRequest &r)
+    {
+        if (!attackPhase)
+            return;
+        observe(false);
+        QString pw;
+        bool known = knownUser(r.username(), pw);
+        bool ok = digest ? known : (known && pw == r.password());
+        hist(" [library-checker " + std::string(digest ? "getDigest(" : "checkPassword(") + q(r.username()) + (digest ? "" : "," + q(r.password())) + "): " + (ok ? (digest ? "digest" : "APPROVED") : "not-authorized") + "]");
+        ev.label("release:library");
+        if (ok) {
+            if (digest)
+                digestReleased.insert(r.username());
+            else
+                plainApproved.insert(r.username());
+        }
+    }
     void scheduleAuto(int id, int hops)
     {
         QTimer::singleShot(0, &guard, [this, id, hops] {
@@ -642,7 +720,14 @@ struct World {
                 std::string cls = jidClass(from);
                 if (cls == "alice")
                     cls += ok.isEmpty() ? "-before-approval" : "-unbound-resource";
-                violation("c16 victim-received " + q(name) + " from-" + cls,
+                // did the attacker write this from itself (and the server let it pass), or did the server stamp it?
+                std::string origin = "unattributed";
+                int a = -1, b = -1;
+                if (sscanf(q(e.attribute(QStringLiteral("id"))).c_str(), "mk%de%d", &a, &b) == 2 && a >= 0 && size_t(a) < script.steps.size() && b >= 0 && size_t(b) < script.steps[size_t(a)].elems.size()) {
+                    int fk = script.steps[size_t(a)].elems[size_t(b)].from;
+                    origin = fk == 0 || fk == 5 ? "stamped-by-server" : "sender-supplied";
+                }
+                violation("c16 victim-received " + q(name) + " from-" + cls + " " + origin,
                           "the victim received a stanza from the attacker connection with from='" + q(from) + "'; the checker approved " + (ok.isEmpty() ? std::string("nobody") : q(QStringList(ok.values()).join(u','))) + " on that connection, so the only acceptable from is that user's bare JID or a full JID the server bound for it: " + q(elementText(e)));
                 return;
             }
@@ -728,6 +813,12 @@ struct World {
         case 5: return QByteArray("foo=bar,qop=auth").toBase64();
         case 6: return digestResponse(QStringLiteral("mallory"), QStringLiteral("mallory"), QStringLiteral("x"), n).toBase64();
         case 7: return (z + "alice" + z + "wonderland").toBase64();
+        case 9:
+            if (!n.isEmpty())
+                ev.label(script.backend == 1 ? "resp:unknown-user-empty-password-digest-on-live-nonce(library-backend)" : "resp:unknown-user-empty-password-digest-on-live-nonce(scheduled-backend)");
+            return digestResponse(QStringLiteral("mallory"), QStringLiteral("mallory"), QString(), n).toBase64();
+        case 10: return digestResponse(ALICE, ALICE, QString(), n).toBase64();
+        case 11: return digestResponse(VICTIM, VICTIM, QString(), n).toBase64();
         default: return (z + "victim" + z + "guess").toBase64();
         }
     }
@@ -762,6 +853,7 @@ struct World {
             case 4: from = VICTIM_BARE; break;
             case 6: from = QStringLiteral("mallory@example.org/evil"); break;
             case 7: from = lastAssigned.isEmpty() ? QStringLiteral("/x") : lastAssigned; break;
+            case 8: from = ALICE_BARE + QStringLiteral("/other"); break;
             default: break;
             }
             QByteArray attrs = " id='" + marker + "'";
@@ -792,7 +884,7 @@ struct World {
                 stanzaBeforeAuth = true;
                 ev.label("stanza-while-unapproved");
             }
-            if (e.from >= 3) {
+            if (e.from >= 3 && e.from != 7) {
                 spoof = true;
                 ev.label("stanza-with-foreign-from");
             }
@@ -842,6 +934,9 @@ void runCase(const Script &script, const Ctx &c, Ev &ev)
     World w(c, ev, script);
     ev.rec('X', "on-client-input");
     w.checker.hook = [&w](bool digest, const QXmppPasswordRequest &r) { return w.onRequest(digest, r); };
+    w.checker.note = [&w](bool digest, const QXmppPasswordRequest &r) { w.onLibraryRequest(digest, r); };
+    w.checker.useLibraryReplies = script.backend == 1;
+    ev.label(script.backend == 1 ? "backend:library-replies" : "backend:scheduled-replies");
 
     // ---- server
     w.server = std::make_unique<QXmppServer>();
@@ -983,7 +1078,22 @@ void runCase(const Script &script, const Ctx &c, Ev &ev)
 
 VCHECK("c16.server", 400)
 {
-    const Script script = generate(t);   // every random decision of the case is taken here, in the parent
+    Script scriptGen = generate(t);   // every random decision of the case is taken here, in the parent
+    if (c.param("selftest_unknown_user_digest", 0)) {
+        // harness self-test (never used by the registered commands): DIGEST-MD5 for an unknown user with the empty password
+        auto mk = [](Kind k, int cred = 0, int mech = 0) {
+            Elem e;
+            e.k = k;
+            e.cred = cred;
+            e.mech = mech;
+            return e;
+        };
+        Elem msg = mk(K_STANZA);
+        msg.to = 1;
+        scriptGen.steps = { Step { { mk(K_STREAM) }, {} }, Step { { mk(K_AUTH1, 4, 1) }, {} }, Step { { mk(K_RESP1, 9) }, {} }, Step { { mk(K_RESP1, 4) }, {} }, Step { { mk(K_STREAM) }, {} }, Step { { mk(K_BIND), msg }, {} } };
+        scriptGen.backend = 1;
+    }
+    const Script &script = scriptGen;
     // warm-up: one benign conversation inside the parent, so that every lazily initialised piece of Qt / OpenSSL /
     // the library (CA store, regular expressions, meta types) is inherited by the children instead of being redone
     static bool warmed = false;
@@ -1022,6 +1132,7 @@ VCHECK("c16.server", 400)
         ev.fd = fd;
         runCase(script, c, ev);
         ev.rec('D', "");
+        fflush(stdout);
         _exit(0);
     }
     int status = 0;
